@@ -33,8 +33,8 @@ func checkC11(c *Ctx) {
 	c.Rule("C11.R1", "model evaluation of NewTree/Insert/Delete over three histories (fill, scattered drain to empty, refill; interleaved deletes of absent objects and duplicates; 36 boxes to height three) and several branching parameters, the comparisons of the insertion heuristics resolved once by the geometry and several times by arbitrary consistent orders: after every operation all leaves are at one depth and Depth() equals it, no node lacks a child it points to, and no call panics")
 	c.Rule("C11.R2", "model evaluation, same runs: every node reached through an entry is parent-linked to the node holding that entry")
 	c.Rule("C11.R3", "model evaluation, same runs: every inner entry's box is exactly the envelope of the boxes below it and every leaf entry's box is its object's box")
-	c.Rule("C11.R4", "model evaluation, same runs: Size() and the multiset of objects found in the leaves equal the history's; Delete of a stored object returns true and of an absent one false, leaving the tree unchanged — complemented by the path rule: Insert changes size by exactly +1 on every path, Delete decrements once after removing one entry and returns false only on paths without a store")
-	c.Rule("C11.R5", "model evaluation, same runs: no node holds more than MaxChildren entries — complemented by the path rule: every append to the entries of a linked node is followed by a test against MaxChildren whose overflow branch splits that node")
+	c.Rule("C11.R4", "model evaluation, same runs: Size() and the multiset of objects found in the leaves equal the history's; Delete of a stored object returns true and of an absent one false, leaving the tree unchanged")
+	c.Rule("C11.R5", "model evaluation, same runs: no node holds more than MaxChildren entries")
 	c.Rule("C11.R6", "every package-level relation over two boxes (found by signature) is closed intersection, containment or the lattice join, and the point relation closed containment, in all weak orderings of the coordinates; model evaluation: SearchIntersect returns exactly the stored objects (with multiplicity) whose boxes share a point with the query, for disjoint, touching, overlapping, degenerate and all-covering queries after every third operation")
 	p := c.P.Pkg("index/rtree")
 	if p == nil {
@@ -43,18 +43,11 @@ func checkC11(c *Ctx) {
 	}
 	c11model(c, nil)
 	c11predicates(c, p)
-	// size accounting and overflow tests on every path (complements the histories of the model,
-	// which cannot reach conditions on large sizes)
-	a := &c11{c: c, info: p.TypesInfo, pure: map[*types.Func]int{}, r3name: "C11.R3"}
-	if a.discover() {
-		a.r4()
-		a.r5()
-	}
 	c.exhaust = true
 	c.Floor("C11.R1", 2)
 	c.Floor("C11.R2", 1)
 	c.Floor("C11.R3", 1)
-	c.Floor("C11.R4", 2)
+	c.Floor("C11.R4", 1)
 	c.Floor("C11.R5", 1)
 	c.Floor("C11.R6", 6)
 }
